@@ -7,7 +7,7 @@ use crate::node::gen_token;
 use crate::svc::{gen_header_text, gen_item, j, Recorder};
 use conjure_error::Error;
 use conjure_http::client::{ConjureResponseDeserializer, DisplaySeqEncoder};
-use conjure_http::server::{FromStrSeqDecoder, StdResponseSerializer};
+use conjure_http::server::{FromStrSeqDecoder, StdRequestDeserializer, StdResponseSerializer};
 use conjure_http::{conjure_client, conjure_endpoints, endpoint};
 use conjure_object::BearerToken;
 use labrt::{AsyncLoopback, ChunkStream, Chunks, Loopback};
@@ -93,6 +93,12 @@ pub trait HandService {
 
     #[endpoint(method = GET, path = "/hand/multi/{rest}")]
     fn multi(&self, #[path] rest: String) -> Result<(), Error>;
+
+    #[endpoint(method = POST, path = "/hand/small16", produces = StdResponseSerializer)]
+    fn small16(&self, #[body(deserializer = StdRequestDeserializer<16>, log_as = "tiny")] v: String) -> Result<String, Error>;
+
+    #[endpoint(method = POST, path = "/hand/strs")]
+    fn strs(&self, #[body(safe)] v: Vec<String>) -> Result<(), Error>;
 }
 
 #[conjure_endpoints]
@@ -119,6 +125,12 @@ pub trait AsyncHandService {
 
     #[endpoint(method = GET, path = "/hand/multi/{rest}")]
     async fn multi(&self, #[path] rest: String) -> Result<(), Error>;
+
+    #[endpoint(method = POST, path = "/hand/small16", produces = StdResponseSerializer)]
+    async fn small16(&self, #[body(deserializer = StdRequestDeserializer<16>, log_as = "tiny")] v: String) -> Result<String, Error>;
+
+    #[endpoint(method = POST, path = "/hand/strs")]
+    async fn strs(&self, #[body(safe)] v: Vec<String>) -> Result<(), Error>;
 }
 
 #[derive(Clone)]
@@ -150,6 +162,14 @@ macro_rules! hand_impl {
             }
             $($async_)? fn multi(&self, rest: String) -> Result<(), Error> {
                 self.rec.calls.lock().unwrap().push(crate::svc::Call { endpoint: "multi", args: args!["rest" => rest], ret: j(&()) });
+                Ok(())
+            }
+            $($async_)? fn small16(&self, v: String) -> Result<String, Error> {
+                self.rec.calls.lock().unwrap().push(crate::svc::Call { endpoint: "small16", args: args!["v" => v], ret: j(&v) });
+                Ok(v)
+            }
+            $($async_)? fn strs(&self, v: Vec<String>) -> Result<(), Error> {
+                self.rec.calls.lock().unwrap().push(crate::svc::Call { endpoint: "strs", args: args!["v" => v], ret: j(&()) });
                 Ok(())
             }
         }
